@@ -242,6 +242,33 @@ def _eq_cond_subst(p, params):
     return env_eq
 
 
+def _handles_infeasible(p):
+    """union-find over the handle equalities of the path condition; a disequality inside one class, or TOP and BOT in one class, makes the path infeasible"""
+    parent = {}
+
+    def find(x):
+        parent.setdefault(x, x)
+        while parent[x] != x:
+            parent[x] = parent[parent[x]]
+            x = parent[x]
+        return x
+    eq, ne = [], []
+    for e, v in p.cond:
+        e = deep_strip(e)
+        val = int_of(v) if isinstance(v, tuple) and v[0] == "int" else None
+        if e[0] == "app" and e[1] in ("Eq", "Ne") and val in (0, 1):
+            a, b_ = strip(e[2][0]), strip(e[2][1])
+            (eq if (val == 1) == (e[1] == "Eq") else ne).append((a, b_))
+    for a, b_ in eq:
+        parent[find(a)] = find(b_)
+    consts = [x for x in list(parent) if x in (T0, T1, vint(0), vint(1))]
+    zero = set(find(x) for x in consts if x in (T0, vint(0)))
+    one = set(find(x) for x in consts if x in (T1, vint(1)))
+    if zero & one:
+        return True
+    return any(find(a) == find(b_) for a, b_ in ne)
+
+
 def ite_rules(ctx, lib):
     r0 = "C07.T-ite0"
     r1 = "C07.R-ite"
@@ -314,9 +341,13 @@ def ite_rules(ctx, lib):
         if ret[0] == "field" or ret[0] == "downcast" or contains_get(ret):
             # cache hit: checked by S.F-memo
             continue
-        n0 += 1
         # validity of the shortcut under its path condition
         eqs = _eq_cond_subst(p, (I, Tt, E))
+        if _handles_infeasible(p):
+            # the path condition is contradictory on the level of handles (e.g. t == BOT && e == BOT after the t == e test failed): dead code, nothing to validate
+            ctx.ob(r0, "shortcut[%s]" % key, True, where=b.where(), expected="phi => r == ITE(i,t,e)", found="infeasible path condition", nontrivial=False)
+            continue
+        n0 += 1
         ok, why = shortcut_valid(ret, (I, Tt, E), eqs)
         ctx.ob(r0, "shortcut[%s]" % key, ok, where=b.where(), expected="phi => r == ITE(i,t,e)", found=why)
     ctx.floor(r1, "recursive steps", n1, 1)
